@@ -109,7 +109,9 @@ class RefFree:
         if self.continued:
             if i >= n:
                 return  # blank line inside continuation
-            if line[i] == "!" and not self.lit:
+            if line[i] == "!":
+                # a comment line between continuation lines - also inside a continued character context, where the
+                # continuation line proper must begin with `&` ("continued on the next line that is not a comment line")
                 self._comment(line[i:], own_line=True)
                 return
             if line[i] == "&":
